@@ -10,21 +10,29 @@ from .program import BackendTable, Ext, Func, Partial, SelectedBackend, norm
 
 FRESH = frozenset()
 OBJ, CONT, MEM, CMEM = 'obj', 'cont', 'mem', 'cmem'
+# LAZY: result of `x.astype(dtype)` without copy=: a copy for NumPy arrays, but the SAME lazy array for a dask array
+# that already has that dtype - its blocks are then the caller's blocks.  It counts as sharing memory only where blocks
+# are handed to a block function (map_blocks / map_overlap callbacks), nowhere else.
+LAZY = 'lazy'
 
 
 def lower(vals, to=MEM):
     """derived value: shares memory with, but is not, the root object"""
-    return frozenset((r, to) for r, _ in vals)
+    return frozenset((r, LAZY if lv == LAZY else to) for r, lv in vals)
 
 
 def elems(vals):
     """element of a container / index into an object"""
-    return frozenset((r, OBJ if lv == CONT else MEM) for r, lv in vals)
+    return frozenset((r, LAZY if lv == LAZY else OBJ if lv == CONT else MEM) for r, lv in vals)
 
 
 def contain(vals):
     """a new container holding these values"""
-    return frozenset((r, CONT if lv in (OBJ, CONT) else CMEM) for r, lv in vals)
+    return frozenset((r, LAZY if lv == LAZY else CONT if lv in (OBJ, CONT) else CMEM) for r, lv in vals)
+
+
+def unlazy(vals):
+    return frozenset((r, MEM if lv == LAZY else lv) for r, lv in vals)
 
 # attribute / method vocabulary -------------------------------------------------------------------------
 ALIAS_ATTRS = {'data', 'values', 'T', 'real', 'imag', 'flat', 'variable', '_data', 'coords', 'attrs', 'dims',
@@ -283,9 +291,11 @@ class _Analyzer:
                         cp = k.value
                 if cp is not None and norm(cp) == 'False':
                     return lower(recv)
-                return FRESH
+                if cp is not None:
+                    return FRESH
+                return frozenset((r, LAZY) for r, lv in recv if lv != CONT and lv != CMEM)
             if meth in ('map_blocks', 'map_overlap'):
-                self._callback(e.args[0] if e.args else None, [recv] + argvals[1:], e)
+                self._callback(e.args[0] if e.args else None, [recv] + argvals[1:], e, raw_blocks=(meth == 'map_blocks'))
                 return FRESH
             if meth in ALIAS_METHODS:
                 return lower(recv)
@@ -344,7 +354,7 @@ class _Analyzer:
                     return lower(argvals[0]) if argvals else FRESH
                 return FRESH
             if dn in ('dask.array.map_blocks', 'dask.array.map_overlap'):
-                self._callback(e.args[0] if e.args else None, argvals[1:], e)
+                self._callback(e.args[0] if e.args else None, argvals[1:], e, raw_blocks=dn.endswith('map_blocks'))
                 return FRESH
             if dn in ('dask.delayed', 'dask.delayed.delayed'):
                 return FRESH
@@ -419,6 +429,8 @@ class _Analyzer:
                     for r, lv in roots:
                         if ev.level == CONT:
                             continue   # the callee mutates its own *args/**kwargs container
+                        if lv == LAZY and not getattr(ev, 'via_blocks', False):
+                            continue   # a copy unless handed out as raw dask blocks (promoted at map_blocks callbacks)
                         if ev.level == OBJ and lv == MEM and ev.attr_store:
                             continue   # attribute store on an object derived from ours
                         ne = Event(r, e, 'call of %s which writes its parameter `%s` (%s at line %s)'
@@ -427,6 +439,7 @@ class _Analyzer:
                         ne.attr_store = ev.attr_store
                         ne.level = OBJ if (ev.level == OBJ and lv in (OBJ, CONT)) else MEM
                         ne.origin = getattr(ev, 'origin', ev)
+                        ne.via_blocks = getattr(ev, 'via_blocks', False)
                         for k in ('attr', 'value'):
                             if hasattr(ev, k):
                                 setattr(ne, k, getattr(ev, k))
@@ -470,14 +483,20 @@ class _Analyzer:
             s = s.parent
         return False
 
-    def _callback(self, fexpr, argvals, e):
+    def _callback(self, fexpr, argvals, e, raw_blocks=False):
         """a function handed to map_blocks/map_overlap: apply it to the arrays"""
         if fexpr is None:
             return
         t = self.prog.resolve_callable(self.f, self.mod, fexpr)
         # block arguments are blocks of the arrays; writing a block does not write the dask array's source in
         # general, but for numpy-backed dask arrays blocks may be views: treated as aliasing (conservative)
-        self.apply(t, e, argvals, {})
+        # map_blocks hands the array's own blocks to the function (a same-dtype `astype` on a dask array is the array
+        # itself); map_overlap hands freshly concatenated block + halo arrays
+        n0 = len(self.s.events)
+        self.apply(t, e, [unlazy(v) for v in argvals] if raw_blocks else argvals, {})
+        if raw_blocks:
+            for ev in self.s.events[n0:]:
+                ev.via_blocks = True
 
     # ------------------------------------------------------------------------------------------- statements
     def block(self, stmts):
